@@ -103,9 +103,10 @@ CfgsClause(gs, V) == First(Fails([i \in 1..Len(gs) |-> CfgClause(gs[i], V)]))
 
 \* ---- skool2html with ref files ----------------------------------------------------------------------------
 UQClause(q, U, U2) ==
-  IF (q.has = 1) # Has(U, q.n) THEN "user-has-section"
+  IF q.n = CONFIG THEN
+    (IF q.raw = LinesOf(U, q.n) THEN "ok" ELSE IF q.raw = LinesOf(U2, q.n) THEN "drift:config-line-added-twice" ELSE "user-section-lines")
+  ELSE IF (q.has = 1) # Has(U, q.n) THEN "user-has-section"
   ELSE IF q.raw = LinesOf(U, q.n) THEN "ok"
-  ELSE IF q.n = CONFIG /\ q.raw = LinesOf(U2, q.n) THEN "drift:config-line-added-twice"
   ELSE "user-section-lines"
 \* "Content may be appended to an existing ref file section defined elsewhere by adding a '+' suffix": when the section
 \* exists only in the built-in ref file and the user's files only ever append to it, HtmlWriter.get_section returns the
@@ -126,13 +127,14 @@ WFClause(f, D, U, strict) ==
   IF ~SeqOrSet(ObsSecs(f), WSecs(D, U, f.p), strict) THEN "writer-family-sections"
   ELSE IF ~SeqOrSet(ObsDicts(f), WDcts(D, U, f.p), strict) THEN "writer-family-dictionaries"
   ELSE "ok"
-SiteClause(c, V, auto, strict) ==
-  IF ~AllNamed(c.dir, c.cmd) THEN "machinery:cmd-file"
+SiteClauses(c, V, auto, strict) ==
+  IF ~AllNamed(c.dir, c.cmd) THEN <<"machinery:cmd-file">>
   ELSE LET D == DefaultSecs(V)
            U == UserSections(auto, c.dir, c.cmd, c.cli, V)
-           U2 == UserSectionsTwice(auto, c.dir, c.cmd, c.cli, V)
-       IN First(Fails([i \in 1..Len(c.uq) |-> UQClause(c.uq[i], U, U2)] \o [i \in 1..Len(c.q) |-> WQClause(c, c.q[i], D, U)]
-                      \o [i \in 1..Len(c.fam) |-> WFClause(c.fam[i], D, U, strict)] \o <<CfgsClause(c.cfg, V)>>))
+           U2 == UserSectionsTwice(D, auto, c.dir, c.cmd, c.cli, V)
+       IN [i \in 1..Len(c.uq) |-> UQClause(c.uq[i], U, U2)] \o [i \in 1..Len(c.q) |-> WQClause(c, c.q[i], D, U)]
+          \o [i \in 1..Len(c.fam) |-> WFClause(c.fam[i], D, U, strict)] \o <<CfgsClause(c.cfg, V)>>
+SiteClause(c, V, auto, strict) == First(SiteClauses(c, V, auto, strict))
 Perms(n) == {f \in [1..n -> 1..n] : \A i, j \in 1..n : f[i] = f[j] => i = j}
 Permuted(q, f) == [i \in 1..Len(q) |-> q[f[i]]]
 
@@ -166,9 +168,15 @@ Judge(c) ==
   ELSE IF c.k = "reffile" THEN RefFileClause(c)
   ELSE "machinery:kind"
 
+\* every drift class of a case that has no hard failure
+DriftSet(c, v) ==
+  IF ~IsDrift(v) THEN {}
+  ELSE IF c.k = "site" /\ v \notin {"drift:order", "drift:variant", "drift:auto-order"} THEN {s \in Range(SiteClauses(c, Impl, c.auto, TRUE)) : IsDrift(s)}
+  ELSE {v}
+
 Init == tid \in 1..Len(Cases) /\ verdict = "pending"
 Next == /\ verdict = "pending" /\ verdict' = Judge(Cases[tid]) /\ UNCHANGED tid
         /\ (IF verdict' = "ok" THEN TRUE
-            ELSE IF verdict' \in DriftVerdicts THEN PrintT(<<"DRIFT", tid, verdict'>>)
+            ELSE IF verdict' \in DriftVerdicts THEN \A d \in DriftSet(Cases[tid], verdict') : PrintT(<<"DRIFT", tid, d>>)
             ELSE PrintT(<<"FAIL", tid, verdict'>>))
 =============================================================================
